@@ -402,9 +402,13 @@ func H_conc_r() {
 		vfAssert("rt-output-equals-input", vfEqBytes(out, content))
 	} else {
 		// whatever was delivered is a prefix of the content; a clean end only with everything
-		vfAssert("conc-r-delivered-prefix", hIsPrefix(out, content))
-		if final == io.EOF {
-			vfAssert("conc-r-clean-end-only-when-complete", len(out) == len(content))
+		// (a flipped byte in a frame without block checksums can change the data itself before
+		// anything notices: only the acceptance oracle applies there)
+		if damage != 2 || vfParam("bc") != 0 {
+			vfAssert("conc-r-delivered-prefix", hIsPrefix(out, content))
+			if final == io.EOF {
+				vfAssert("conc-r-clean-end-only-when-complete", len(out) == len(content))
+			}
 		}
 		if damage == 3 && src.calls > cut {
 			vfAssert("cfault-source-failure-not-a-clean-end", final != io.EOF)
